@@ -741,6 +741,7 @@ func (k *c18State) selectorKey(sel ssa.Value) (key string, val ssa.Value, pos to
 // ---------------------------------------------------------------------------------------
 
 func c18(c *eng.Ctx) {
+	defer c18Extra(c)
 	c.Rule("R1", "reclamation is complete: an expired client loses its heartbeat entry and starts a pass that, for every limit store, deletes every condition labelled with the instance and calls DeleteInstanceState(instance); unknown instances found by the periodic sweep get the same treatment; DeleteInstanceState reaches SetState(instance, _, <0) on every flow control of every upstream, which removes the instance's entry and subtracts its count", 25)
 	c.Rule("R2", "live instances are kept: every deletion (heartbeat entry, condition, instance state) is control-dependent on `now > last heartbeat + timeout` of the client it deletes or on the instance being absent from a heartbeat snapshot that is complete before it is consulted; records with an empty instance are never deleted; a heartbeat stores the current time in the table the expiry test reads", 10)
 	c.Rule("R3", "writer/reader label agreement: the label key under which a stored condition records its instance equals the key of the cleanup selector, the labelled value is an instance name and the labelled object is the one saved", 3)
@@ -1824,4 +1825,40 @@ func c18Fixtures(c *eng.Ctx) {
 		got := len(ls) == 1 && c18EveryIteration(ls[0], func(i ssa.Instruction) bool { return eng.IsCall(i, "(*fx.S).drop") })
 		c.Fixture("C18.every-iteration/"+name, fmt.Sprint(want), fmt.Sprint(got))
 	}
+}
+
+
+// ---------------------------------------------------------------------------------------
+// Added after seeded changes C18-1 / C18-2.
+func c18Extra(c *eng.Ctx) {
+	c.Rule("R4", "cleanup goroutines act on their own instance: no `go` statement inside a loop of the limiter/store packages captures a loop-carried cell (the iteration variable under go 1.17 semantics); otherwise the goroutine reclaims whichever instance the loop visited last — usually a live one", 1)
+	c.Rule("R5", "freed capacity becomes available: every acknowledged status report saves the report and recomputes and saves the allocated sum (no early success return), so a quota reclaimed by the cleanup is seen by the next report of a surviving instance", 3)
+	n := 0
+	for _, pkg := range []string{pkgLimiter, pkgRLStoreLoc, pkgRLStoreFC, pkgRLStoreK8s} {
+		for _, fn := range c.W.FuncsOf(pkg) {
+			hasGoInLoop := false
+			for _, b := range fn.Blocks {
+				for _, ins := range b.Instrs {
+					if _, ok := ins.(*ssa.Go); ok && eng.InLoop(b) {
+						hasGoInLoop = true
+					}
+				}
+			}
+			if !hasGoInLoop {
+				continue
+			}
+			n++
+			bad := eng.GoCapturesOfLoopCells(fn)
+			pos := fn.Pos()
+			if len(bad) > 0 {
+				pos = bad[0].Pos()
+			}
+			c.Check("R4", fn, "goroutines started in a loop capture per-iteration values only", pos, len(bad) == 0,
+				"a goroutine started inside the loop captures the loop's own variable, which the next iteration overwrites before the goroutine reads it: the cleanup deletes the conditions and in-flight state of another (live) instance and leaves the dead one")
+		}
+	}
+	if n == 0 {
+		c.Fail("R4", nil, "goroutines started in a loop", 0, "the timeout cleanup no longer starts its per-instance goroutine in the loop: rule not applicable to the new shape (undecided)")
+	}
+	c07ReportOrdering(c, "R5")
 }
